@@ -8,13 +8,14 @@ use crate::code::opcode::Opcode;
 use super::super::choices::hash_str;
 use super::super::engine::*;
 use super::super::gen::{gen_program, Cfg};
-use super::super::p2::{compile_text, run_text, Compiled, Outcome, Session, Step, Val};
+use super::super::p2::{compile_text, run_bytecode, run_text, Compiled, Outcome, Session, Step, Val};
 use super::Meta;
 
 pub const META: Meta = Meta {
     rule: "(roundtrip, exhaustive) every opcode x every operand value of its declared widths (OpClosure: 65536 x 256) through make -> lookup/read_operands: opcode, operands and instruction length must come back; \
 (wellformed, proptest) the bytecode of generated programs (main program, every function constant, filters) is walked instruction by instruction with the decoder: every opcode is defined, the walk ends exactly at the end, \
-every jump target is an instruction boundary, every constant index is inside the pool; (limits) programs generated just below, at and just above each encoding limit, each limit through at least two constructs: constant-pool \
+every jump target is an instruction boundary, every constant index is inside the pool; (vm-operands) instruction streams assembled by hand with the real encoder and run by the real VM: global index (define / set / get), constant index, array element count and jump target at the corners of the two-byte range \
+(0, 1, 255, 256, 257, 32767, 32768, 65280, 65534, 65535 ...), each read back next to a neighbour that differs in one operand byte; (limits) programs generated just below, at and just above each encoding limit, each limit through at least two constructs: constant-pool \
 index (65535/65536/65537 constants), global index, jump target (if / while / loop+break / && / || / match arm pushed across position 65535, at top level and inside a function), array literal (65535/65536 elements), map literal \
 (32767/32768 pairs), locals per function (255/256/257), call arguments (255/256), captured variables (255/256), and constants accumulated line by line over a REPL session. Above a limit the compiler must reject; at or below it must \
 compile and behave as computed by the harness (the large operand is read back: the last constant / global / local / argument / captured variable is returned, the far jump is taken). \
@@ -23,7 +24,7 @@ Non-trivial: (roundtrip) an operand >= 256 (2-byte) or >= 128 (1-byte); (limits)
         "array/map literals of 4096..65535 elements are within the encoding but exceed the VM's operand stack: only 'compiles, and running gives a value or a runtime error' is required there",
         "limit values come from the operand widths in src/code/definitions.rs (2 bytes: 65535, 1 byte: 255)",
     ],
-    required_classes: &[("roundtrip", 16_000_000), ("wellformed", 5_000), ("limit", 25)],
+    required_classes: &[("roundtrip", 16_000_000), ("wellformed", 5_000), ("limit", 25), ("vm-operand", 150)],
     exhaustive_when_sections: &["roundtrip"],
 };
 
@@ -438,8 +439,130 @@ fn repl_accumulation(ctx: &mut Ctx) -> Vec<Violation> {
     out
 }
 
+
+/// Hand-assembled instruction streams (encoded with the real `make`) run by the real VM: every two-byte operand
+/// kind at the corners of its range. The program reads the operand's target back next to a neighbour that differs
+/// in one operand byte, so a decoder that drops, swaps or truncates a byte returns the neighbour's value.
+fn vm_operands(ctx: &mut Ctx, only: Option<&str>) {
+    use crate::code::definitions::Instructions;
+    use crate::compiler::Bytecode;
+    use crate::object::Object;
+    use std::rc::Rc;
+    let corners: Vec<usize> = vec![0, 1, 2, 127, 128, 254, 255, 256, 257, 258, 511, 512, 4095, 4096, 32767, 32768, 32769, 65279, 65280, 65281, 65533, 65534, 65535];
+    let assemble = |parts: &[(Opcode, Vec<usize>)]| {
+        let mut ins = Instructions::default();
+        for (op, operands) in parts {
+            let m = make(*op, operands, 1);
+            ins.code.extend_from_slice(&m.code);
+            ins.lines.extend_from_slice(&m.lines);
+        }
+        ins
+    };
+    let nconst = 65536usize;
+    let constants = || -> Vec<Rc<Object>> { (0..nconst).map(|i| Rc::new(Object::Integer(i as i64 * 3 + 1))).collect() };
+    let cval = |i: usize| Val::Int(i as i64 * 3 + 1);
+    let mut idx = 0u64;
+    let mut one = |ctx: &mut Ctx, name: String, parts: Vec<(Opcode, Vec<usize>)>, expect: Val| {
+        idx += 1;
+        match only {
+            Some(o) if o != name => return,
+            None if !ctx.mine(idx) => return,
+            _ => {}
+        }
+        guard("vm-operands", "case", &name);
+        ctx.case(hash_str(&name), true);
+        ctx.class("vm-operand");
+        let bc = Bytecode { instructions: assemble(&parts), constants: constants(), filters: vec![], filter_end: None };
+        let case = json!({"vm_operands": name});
+        let v = match run_bytecode(bc, None) {
+            Outcome::Ran(r) => {
+                if r.err.is_none() && expect.same(&r.last) {
+                    None
+                } else {
+                    Some(Violation::new(
+                        "vm-operands",
+                        format!("vm-operand-misread:{}", name.split(':').next().unwrap_or("")),
+                        format!("hand-assembled program `{}`: expected the last value {}, got {}", name, expect.show(), match &r.err { Some((m, l)) => format!("runtime error [line {}] {}", l, m), None => r.last.show() }),
+                        case,
+                    ))
+                }
+            }
+            Outcome::Panic(p) => Some(Violation::new("vm-operands", p.signature(), format!("hand-assembled program `{}` crashed the VM: {}", name, p.describe()), case)),
+            _ => None,
+        };
+        if ctx.want_sample() {
+            ctx.sample(json!({"vm_operand_case": name, "expected": expect.show()}));
+        }
+        if let Some(v) = v {
+            ctx.report(v);
+        }
+    };
+    for &g in &corners {
+        for &nb in &[g ^ 1, g ^ 0x100, (g + 1) % 65536, (g + 65535) % 65536, ((g & 0xff) << 8) | (g >> 8)] {
+            if nb == g {
+                continue;
+            }
+            // let G = c1; let NB = c2; G = c3; [G, NB]
+            let (c1, c2, c3) = (g, nb, 65535 - (g % 1000));
+            one(
+                ctx,
+                format!("global:{}:{}", g, nb),
+                vec![
+                    (Opcode::Constant, vec![c1]),
+                    (Opcode::DefineGlobal, vec![g]),
+                    (Opcode::Constant, vec![c2]),
+                    (Opcode::DefineGlobal, vec![nb]),
+                    (Opcode::Constant, vec![c3]),
+                    (Opcode::SetGlobal, vec![g]),
+                    (Opcode::Pop, vec![]),
+                    (Opcode::GetGlobal, vec![g]),
+                    (Opcode::GetGlobal, vec![nb]),
+                    (Opcode::Array, vec![2]),
+                    (Opcode::Pop, vec![]),
+                ],
+                Val::Arr(vec![cval(c3), cval(c2)]),
+            );
+        }
+        // constant index g read back
+        one(ctx, format!("constant:{}", g), vec![(Opcode::Constant, vec![g]), (Opcode::Pop, vec![])], cval(g));
+    }
+    // element counts of array literals (bounded by the operand stack)
+    for &n in &[0usize, 1, 2, 255, 256, 257, 511, 512, 1000, 2048, 4000] {
+        let mut parts: Vec<(Opcode, Vec<usize>)> = (0..n).map(|i| (Opcode::Constant, vec![i])).collect();
+        parts.push((Opcode::Array, vec![n]));
+        parts.push((Opcode::Pop, vec![]));
+        one(ctx, format!("array:{}", n), parts, Val::Arr((0..n).map(cval).collect()));
+    }
+    // jump targets: the skipped region overwrites global 0, the landing pad reads it
+    for &pad in &[0usize, 1, 30, 36, 37, 73, 4681, 9361, 9362] {
+        for (tag, jump) in [("jump", Opcode::Jump), ("jump-if-false", Opcode::JumpIfFalse)] {
+            let mut parts: Vec<(Opcode, Vec<usize>)> = vec![(Opcode::Constant, vec![7]), (Opcode::DefineGlobal, vec![0])];
+            let mut pos = 6;
+            if jump == Opcode::JumpIfFalse {
+                parts.push((Opcode::False, vec![]));
+                pos += 1;
+            }
+            pos += 3;
+            let target = pos + pad * 7;
+            if target > 65535 {
+                continue;
+            }
+            parts.push((jump, vec![target]));
+            for k in 0..pad {
+                parts.push((Opcode::Constant, vec![100 + k]));
+                parts.push((Opcode::SetGlobal, vec![0]));
+                parts.push((Opcode::Pop, vec![]));
+            }
+            parts.push((Opcode::GetGlobal, vec![0]));
+            parts.push((Opcode::Pop, vec![]));
+            one(ctx, format!("{}:{}", tag, target), parts, cval(7));
+        }
+    }
+}
+
 pub fn run(ctx: &mut Ctx) {
     roundtrip(ctx);
+    vm_operands(ctx, None);
     ctx.more_samples(2);
     let n = ctx.nshards as u32;
     drive(ctx, "wellformed", ctx.tier.pick(20_000, 500_000) / n, 16, 500, |ctx, bytes| {
@@ -469,6 +592,10 @@ pub fn run(ctx: &mut Ctx) {
 }
 
 pub fn replay(section: &str, case: &Value, ctx: &mut Ctx) {
+    if let Some(name) = case.get("vm_operands").and_then(|v| v.as_str()) {
+        vm_operands(ctx, Some(name));
+        return;
+    }
     if let Some(name) = case.get("limit").and_then(|v| v.as_str()) {
         if name == "repl-accumulated-constants" {
             for v in repl_accumulation(ctx) {
